@@ -161,7 +161,7 @@ fn main() {
             let n: usize = m.get("n").and_then(|s| s.parse().ok()).unwrap_or(100);
             let cfg = cfg_of(m.get("cfg").map(|s| s.as_str()).unwrap_or("core"));
             let out = m.get("out").expect("--out");
-            let kinds: Vec<&str> = if cmd == "record-perm" { vec!["PL", "PA", "DC", "PR", "DR"] } else { vec!["AL", "AQ", "AR", "UN", "SH", "IN"] };
+            let kinds: Vec<&str> = if cmd == "record-perm" { vec!["PL", "PA", "DC", "PR", "DR"] } else { vec!["AL", "AQ", "AR", "UN", "SH", "IN", "IL"] };
             let mut f = std::io::BufWriter::new(std::fs::File::create(out).unwrap());
             let mut r = Rng::new(seed);
             let mut i = 0usize;
